@@ -30,7 +30,7 @@ import (
 	"verif/harness/kit"
 )
 
-const c40Rule = "fault matrix = application {ICS-20 over IBC v1, ICS-20 over IBC v2, GMP over IBC v2} x callback type {send, ack of a success, ack of an error (refund), timeout (refund), receive} x contract behaviour {ok, consume exactly the limit, error, panic, burn far beyond the limit, limit+1, out of gas swallowed into an error} x user gas limit {small, absent, \"0\", = max, max+1, 2^64-1} x relayer/user transaction gas {generous, tight: remaining < commit limit at the callback, then retried at commit-1 / commit / commit+1 and finally with generous gas} x chain maximum {1,000,000 as wired in the callbacks simapp, 300,000 through rebuilt stacks}; every cell is a real packet life cycle driven by signed transactions with a chosen gas limit; the oracles read the contract keeper's gas meter, the transaction's gas meter at the contract's start and at the stack's return, the transaction result and the exact state diff. " +
+const c40Rule = "fault matrix = application {ICS-20 over IBC v1, ICS-20 over IBC v2, GMP over IBC v2} x callback type {send, ack of a success, ack of an error (refund), timeout (refund), receive} x contract behaviour {ok, consume exactly the limit, error, panic, burn far beyond the limit, limit+1, out of gas swallowed into an error, out of gas swallowed into success} x user gas limit {small, absent, \"0\", = max, max+1, 2^64-1} x relayer/user transaction gas {generous, tight: remaining < commit limit at the callback, then retried at commit-1 / commit / commit+1 and finally with generous gas} x chain maximum {1,000,000 as wired in the callbacks simapp, 300,000 through rebuilt stacks}; every cell is a real packet life cycle driven by signed transactions with a chosen gas limit; the oracles read the contract keeper's gas meter, the transaction's gas meter at the contract's start and at the stack's return, the transaction result and the exact state diff. " +
 	"Plus boundary-biased (remaining, user, max) triples through GetCallbackData / GetSourceCallbackData / GetDestCallbackData against cap(user,max) and min(remaining, cap). distinct = matrix cell x observed regime (retryable / not, aborted / isolated / persisted)"
 
 // capGas is the commit limit of the statement: the user-requested limit capped at the chain maximum (0 or absent or above max ⇒ max).
@@ -53,19 +53,12 @@ func TestC40(t *testing.T) {
 	defer c.Finish()
 	c.Assume("callbacks simapp of the repository (modules/apps/callbacks/testing/simapp) with its mock ContractKeeper's function fields replaced by a scripted contract; for the non-default maximum the stacks are rebuilt with the public middleware constructors")
 	c.Assume("the SDK's transaction atomicity and gas metering of the ante handler are the trusted base; gas observations are taken from the same gas meters the code under test uses, read by the harness's taps")
-	c.Floor("pure_triples", 3000)
-	c.Floor("pure_via_context", 300)
-	c.Floor("cells", 500)
-	c.Floor("gas_bound_checks", 1500)
-	c.Floor("limit_equals_min_remaining_cap", 1000)
-	c.Floor("limit_capped_by_remaining", 150)
-	c.Floor("src_failure_isolated", 150)
-	c.Floor("src_retryable_oog_aborted", 60)
-	c.Floor("retry_after_abort_succeeded", 60)
-	c.Floor("src_nonretryable_oog_isolated", 60)
-	c.Floor("dest_failure_error_ack_no_app_change", 60)
-	c.Floor("ok_callback_persisted", 100)
-	c.Floor("send_failure_rejected", 40)
+	for k, v := range map[string]int64{"pure_triples": 2000, "pure_via_context": 280, "cells": 340, "gas_bound_checks": 670, "limit_equals_min_remaining_cap": 670,
+		"limit_capped_by_remaining": 200, "src_failure_isolated": 115, "src_retryable_oog_aborted": 60, "retry_after_abort_succeeded": 40, "src_nonretryable_oog_isolated": 70,
+		"dest_failure_error_ack_no_app_change": 80, "ok_callback_persisted": 85, "send_failure_rejected": 50, "boundary_remaining_eq_commit": 30,
+		"obs_v1_ack": 80, "obs_v2_ack": 80, "obs_gmp_ack": 14, "obs_v1_timeout": 28, "obs_v2_timeout": 28, "obs_v1_recv": 70, "obs_v2_recv": 70, "obs_gmp_recv": 35, "obs_v1_send": 110, "obs_v2_send": 110} {
+		c.Floor(k, v)
+	}
 	c.Exhaustive = true
 
 	c40Pure(c, t)
@@ -308,6 +301,7 @@ type c40 struct {
 	gmpAcct sdk.AccAddress
 	// balances taken right before the delivery under judgement
 	lastProbes probes
+	start      time.Time
 }
 
 type probes struct{ sender, escrow, to, credit balProbe }
@@ -315,7 +309,7 @@ type probes struct{ sender, escrow, to, credit balProbe }
 var allBehs = []string{BehOK, BehExact, BehError, BehPanic, BehBurnAll, BehOverByOne, BehOogAsError, BehOogAsOK}
 
 func newC40(c *kit.Check, t *testing.T, r *kit.Rng, max uint64) *c40 {
-	m := &c40{c: c, t: t, r: r, max: max, pre: map[string]uint64{}}
+	m := &c40{c: c, t: t, r: r, max: max, pre: map[string]uint64{}, start: time.Now()}
 	m.w = NewCBWorld(t, max)
 	m.a, m.b = m.w.Chains[0], m.w.Chains[1]
 	m.p1 = ibctesting.NewTransferPath(m.a.TestChain, m.b.TestChain)
@@ -349,16 +343,32 @@ func (m *c40) userVal(kind string) (field string, u uint64) {
 	return fmt.Sprintf(`, "gas_limit": "%d"`, u), u
 }
 
-func (m *c40) runMatrix(full bool) {
-	var cells []cell
-	users := []string{"small", "absent", "zero", "equal", "over"}
-	if !full {
-		users = []string{"small", "over", "maxu64"}
+// usersFor is the user-limit dimension of one (world, type): the quick tier enumerates all user kinds for the callback types the
+// statement singles out on each side (ack, recv) and the three classes {below max, absent, above max} elsewhere; the thorough
+// tier enumerates every kind everywhere.
+func (m *c40) usersFor(first bool, typ string) []string {
+	all := []string{"small", "absent", "zero", "equal", "over", "maxu64"}
+	if m.c.Thorough() {
+		return all
 	}
+	wide := typ == "ack" || typ == "recv"
+	switch {
+	case first && wide:
+		return []string{"small", "absent", "zero", "equal", "over"}
+	case first:
+		return []string{"small", "absent", "over"}
+	case wide:
+		return []string{"small", "over", "maxu64"}
+	}
+	return []string{"small"}
+}
+
+func (m *c40) runMatrix(first bool) {
+	var cells []cell
 	for _, app := range []string{"v1", "v2"} {
 		for _, typ := range []string{"ack", "ackerr", "timeout", "recv", "send"} {
 			for _, rel := range []string{"generous", "tight"} {
-				for _, u := range users {
+				for _, u := range m.usersFor(first, typ) {
 					for _, beh := range allBehs {
 						cells = append(cells, cell{app, typ, beh, u, rel})
 					}
@@ -375,7 +385,7 @@ func (m *c40) runMatrix(full bool) {
 			}
 			for _, u := range us {
 				for _, beh := range allBehs {
-					if !full && typ != "recv" && typ != "ack" {
+					if !first && !m.c.Thorough() && typ != "recv" && typ != "ack" {
 						continue
 					}
 					cells = append(cells, cell{"gmp", typ, beh, u, rel})
@@ -396,7 +406,9 @@ func (m *c40) runMatrix(full bool) {
 		if err != nil {
 			m.c.Inconcl(id + ": " + err.Error())
 		}
-		_ = i
+		if i%100 == 0 {
+			m.t.Logf("progress max=%d cell %d/%d %s t=%s", m.max, i, len(cells), id, time.Since(m.start))
+		}
 	}
 }
 
@@ -721,7 +733,7 @@ func (m *c40) judgeSource(cr *cellRun, lc *lifecycle, o *CBOutcome, refund bool,
 	}
 	wit["limit_seen"], wit["past_limit"], wit["remaining_at_contract_start"] = ob.LimitSeen, ob.PastLimit, ob.OuterRemainAtEntry
 	retryable := ob.LimitSeen < cr.commit
-	failing := ob.PastLimit || cr.cl.beh == BehError || cr.cl.beh == BehPanic || cr.cl.beh == BehOogAsError
+	failing := ob.PastLimit || cr.cl.beh == BehError || cr.cl.beh == BehPanic || cr.cl.beh == BehOogAsError // a swallowed out-of-gas is past the limit as well
 	keys, paid := m.contractWrites(cr, lc.src, o, pr.to.pre)
 	sigT := fmt.Sprintf("%s|%s|%s", cr.cl.app, cr.cl.typ, cr.cl.beh)
 	switch {
@@ -745,6 +757,10 @@ func (m *c40) judgeSource(cr *cellRun, lc *lifecycle, o *CBOutcome, refund bool,
 				return false
 			}
 			m.checkFailedTx(cr, o, commitGone, wit)
+			if final {
+				// 10M gas: nothing but the callback's failure can have rejected the acknowledgement / timeout
+				m.c.Violate("C40|source-callback-failure-rejected-tx|"+sigT, fmt.Sprintf("%s: the acknowledgement/timeout transaction failed after the callback failed (limit %d, commit %d): %s", id, ob.LimitSeen, cr.commit, clip(o.Log)), wit)
+			}
 			cr.note("tx-failed-elsewhere")
 			return false
 		}
@@ -759,7 +775,16 @@ func (m *c40) judgeSource(cr *cellRun, lc *lifecycle, o *CBOutcome, refund bool,
 		}
 		if keys != 0 || paid != 0 {
 			ok = false
-			m.c.Violate("C40|failed-callback-writes-persisted|"+sigT, fmt.Sprintf("%s: the failing callback's own writes persisted: %d keys, %d coins paid", id, keys, paid), wit)
+			if cr.cl.beh == BehOogAsOK {
+				// one class of witness; recorded a few times only so that it cannot crowd out other violations
+				m.c.Inc("oog_swallowed_as_success_writes_persisted")
+				if m.c.Observed["oog_swallowed_as_success_writes_persisted"] > 3 {
+					return true
+				}
+				m.c.Violate("C40|out-of-gas-callback-writes-persisted|contract-keeper-returned-nil-past-its-limit", fmt.Sprintf("%s: the callback ran out of gas (meter past its limit %d = commit limit) and the contract keeper returned nil: the callback's writes persisted (%d keys, %d coins) although the callback is reported as failed with out of gas", id, ob.LimitSeen, keys, paid), wit)
+			} else {
+				m.c.Violate("C40|failed-callback-writes-persisted|"+sigT, fmt.Sprintf("%s: the failing callback's own writes persisted: %d keys, %d coins paid", id, keys, paid), wit)
+			}
 		}
 		if ok {
 			m.c.Inc("src_failure_isolated")
@@ -841,6 +866,9 @@ func (m *c40) judgeRecv(cr *cellRun, lc *lifecycle, o *CBOutcome, final bool) bo
 			m.c.Violate("C40|dest-callback-failure-aborted-tx|"+sigT, fmt.Sprintf("%s: the destination callback (limit %d, commit %d, past limit %v) aborted the receive instead of producing an error acknowledgement: %v", id, ob.LimitSeen, cr.commit, ob.PastLimit, p), wit)
 			return false
 		}
+		if final && (ob.PastLimit || cr.cl.beh == BehError || cr.cl.beh == BehPanic || cr.cl.beh == BehOogAsError) {
+			m.c.Violate("C40|dest-callback-failure-rejected-receive|"+sigT, fmt.Sprintf("%s: the receive transaction failed after the destination callback failed instead of writing an error acknowledgement: %s", id, clip(o.Log)), wit)
+		}
 		cr.note("tx-failed-elsewhere")
 		return false
 	}
@@ -855,7 +883,7 @@ func (m *c40) judgeRecv(cr *cellRun, lc *lifecycle, o *CBOutcome, final bool) bo
 		return true
 	}
 	wit["limit_seen"], wit["past_limit"], wit["ack_success"] = ob.LimitSeen, ob.PastLimit, success
-	failing := ob.PastLimit || cr.cl.beh == BehError || cr.cl.beh == BehPanic || cr.cl.beh == BehOogAsError
+	failing := ob.PastLimit || cr.cl.beh == BehError || cr.cl.beh == BehPanic || cr.cl.beh == BehOogAsError // a swallowed out-of-gas is past the limit as well
 	keys, paid := m.contractWrites(cr, lc.dst, o, pr.to.pre)
 	app := nonCore(o.Diff)
 	if failing {
@@ -908,7 +936,7 @@ func (m *c40) judgeSend(cr *cellRun, lc *lifecycle, o *CBOutcome) bool {
 			cr.note("failed-before-contract")
 			return false
 		}
-		failing := ob.PastLimit || cr.cl.beh == BehError || cr.cl.beh == BehPanic || cr.cl.beh == BehOogAsError
+		failing := ob.PastLimit || cr.cl.beh == BehError || cr.cl.beh == BehPanic || cr.cl.beh == BehOogAsError // a swallowed out-of-gas is past the limit as well
 		if failing {
 			m.c.Inc("send_failure_rejected")
 			cr.note("send-rejected")
@@ -923,7 +951,7 @@ func (m *c40) judgeSend(cr *cellRun, lc *lifecycle, o *CBOutcome) bool {
 		return true
 	}
 	keys, paid := m.contractWrites(cr, lc.src, o, pr.to.pre)
-	failing := ob.PastLimit || cr.cl.beh == BehError || cr.cl.beh == BehPanic || cr.cl.beh == BehOogAsError
+	failing := ob.PastLimit || cr.cl.beh == BehError || cr.cl.beh == BehPanic || cr.cl.beh == BehOogAsError // a swallowed out-of-gas is past the limit as well
 	if failing {
 		// not covered by the statement; recorded
 		m.c.Inc("send_failure_but_tx_ok")
